@@ -1,4 +1,166 @@
-import ZtypV.Spec
+/-
+C07  Hashing is incremental: cached subtrees are not rehashed.
+
+Model H (`ZtypV/Model/Heap.lean`).  The quantity counted is the number of invocations of the
+pair hash `h` (`Trace.calls`), the one the property names.  Hypothesis `NoZeroOut h`
+(`h a b ≠ z0`): the Go memo uses the all-zero root as "unset" (`c.Value != Root{}`), so a pair whose
+hash is the zero root would be rehashed on every request (`C07_zero_hash_counterexample`); for
+SHA-256 this is an assumption about the hash function, listed in the trusted base.
+-/
+import ZtypV.Proofs.HeapCost
 namespace ZtypV.Props.C07
-theorem placeholder : True := trivial
+open ZtypV ZtypV.H
+
+/-- A second hash-tree-root request on an unchanged node performs no hash call and no write. -/
+theorem C07_second_free (h : HashFn) (hz : NoZeroOut h) {hp : Heap} (hw : WF hp) {x : Nat}
+    (hx : x < hp.size) :
+    (run h (Prog.root1 x) (run h (Prog.root1 x) hp).2.1).2.2.calls = 0
+      ∧ (run h (Prog.root1 x) (run h (Prog.root1 x) hp).2.1).2.2.writes = []
+      ∧ (run h (Prog.root1 x) (run h (Prog.root1 x) hp).2.1).2.1 = (run h (Prog.root1 x) hp).2.1 := by
+  rw [run_root1 h hx]
+  have hx' : x < (rootH h (x+1) hp x).2.1.size := by rw [rootH_size]; exact hx
+  rw [run_root1 h hx']
+  obtain ⟨e1, e2⟩ := rootH_top h (f := x) (rootH_topMemo_after h hz hw (Nat.lt_succ_self x) hx)
+  exact ⟨by rw [e2]; rfl, by rw [e2]; rfl, e1⟩
+
+example : (run exHash (Prog.root1 4) (run exHash (Prog.root1 4) exHeap).2.1).2.2.calls = 0 :=
+  (C07_second_free exHash exHash_noZero (wfB_sound (by decide)) (by decide)).1
+
+/-- the first request on `exHeap` does hash (3 distinct pairs: 2, 3, 4 — the shared pair 2 once) -/
+example : (run exHash (Prog.root1 4) exHeap).2.2.calls = 3 := by decide
+
+/-- The same with arbitrary work of a client (on this or other views: allocations, reads, other
+    hash-tree-root requests) between the two requests: the node is still answered from its memo. -/
+theorem C07_second_free_general (h : HashFn) (hz : NoZeroOut h) {p : Prog α} (hnp : NoPoke p)
+    {hp : Heap} (hw : WF hp) {x : Nat} (hx : x < hp.size) :
+    (run h (Prog.root1 x) (run h p (run h (Prog.root1 x) hp).2.1).2.1).2.2.calls = 0 := by
+  rw [run_root1 h hx]
+  have ht := run_topMemo h hnp _ (rootH_topMemo_after h hz hw (Nat.lt_succ_self x) hx)
+  rw [run_root1 h (topMemo_lt ht), (rootH_top h (f := x) ht).2]; rfl
+
+example : (run exHash (Prog.root1 4) (run exHash exClient (run exHash (Prog.root1 4) exHeap).2.1).2.1).2.2.calls = 0 :=
+  C07_second_free_general exHash exHash_noZero noPoke_exClient (wfB_sound (by decide)) (by decide)
+
+/-- Exact cost: the hash calls of a request are in bijection with the cells written, each written
+    once, and those are exactly the pairs with unset memo reached from `x` through pairs with unset
+    memo (`UReach`); in particular shared subtrees are hashed once and nothing below a cached pair
+    is hashed. -/
+theorem C07_count (h : HashFn) (hz : NoZeroOut h) {hp : Heap} (hw : WF hp) {x : Nat} (hx : x < hp.size) :
+    (run h (Prog.root1 x) hp).2.2.calls = (run h (Prog.root1 x) hp).2.2.writes.length
+      ∧ (run h (Prog.root1 x) hp).2.2.writes.Nodup
+      ∧ ∀ y, y ∈ (run h (Prog.root1 x) hp).2.2.writes ↔ UReach hp x y := by
+  rw [run_root1 h hx]
+  have e := rootH_eff h hz (x+1) hp x hw (Nat.lt_succ_self x)
+  exact ⟨e.calls, e.nodup, e.mem⟩
+
+/-- Upper bound: at most the number of distinct reachable pair cells with unset memo (`L` is any
+    list containing them). -/
+theorem C07_count_le (h : HashFn) (hz : NoZeroOut h) {hp : Heap} (hw : WF hp) {x : Nat}
+    (hx : x < hp.size) (L : List Nat)
+    (hL : ∀ y l r, Reach hp x y → hp[y]? = some (Cell.pair z0 l r) → y ∈ L) :
+    (run h (Prog.root1 x) hp).2.2.calls ≤ L.length := by
+  obtain ⟨hc, hn, hm⟩ := C07_count h hz hw hx
+  rw [hc]
+  apply hn.length_le_of_subset
+  intro y hy
+  have hu := (hm y).mp hy
+  obtain ⟨l, r, e⟩ := hu.tgt_unset
+  exact hL y l r hu.reach e
+
+/-- in `exHeap3` (pairs 2 and 3 cached) only pair 4 is hashed -/
+example : (run exHash (Prog.root1 4) exHeap3).2.2.calls ≤ [4].length := by
+  apply C07_count_le exHash exHash_noZero (wfB_sound (by decide)) (by decide)
+  intro y l r _ hy
+  have hlt := get_lt_size hy
+  have : y = 0 ∨ y = 1 ∨ y = 2 ∨ y = 3 ∨ y = 4 := by
+    have : y < 5 := hlt
+    omega
+  rcases this with rfl | rfl | rfl | rfl | rfl
+  · have := unset_of_get hy; revert this; decide
+  · have := unset_of_get hy; revert this; decide
+  · have := unset_of_get hy; revert this; decide
+  · have := unset_of_get hy; revert this; decide
+  · exact List.mem_singleton.mpr rfl
+
+/-- After a single mutation — the node at `path` below a fully hashed `x` is replaced by an already
+    hashed `y`, i.e. the rebinding spine `setPath` of `Setter/DeeperSetter` (one `NewPairNode` per
+    level, siblings shared) — building the spine hashes nothing, and recomputing the root of the new
+    tree invokes the hash at most once per level of the path, whatever the size of the tree. -/
+theorem C07_path (h : HashFn) {hp : Heap} (hw : WF hp) {path : List Bool} {x y x' : Nat}
+    (hfx : FullyMemo hp x) (hfy : FullyMemo hp y) (hy : y < hp.size)
+    (hrun : (run h (setPath path x y) hp).1 = some (some x')) :
+    (run h (setPath path x y) hp).2.2.calls = 0
+      ∧ (run h (Prog.root1 x') (run h (setPath path x y) hp).2.1).2.2.calls ≤ path.length := by
+  obtain ⟨sp, hc⟩ := run_setPath h path x y hp x' hrun
+  obtain ⟨_, hx', _, cost⟩ := spine_cost h sp hw hy (topMemo_of_fullyMemo hfy hy) hfx
+  refine ⟨hc, ?_⟩
+  rw [run_root1 h hx']
+  exact cost _ (x'+1) (PExt.refl _) (Nat.lt_succ_self x')
+
+/-- and the new tree is the one the pure setter gives, the old one is still there unchanged -/
+theorem C07_path_tree (h : HashFn) {hp : Heap} (hw : WF hp) {path : List Bool} {x y x' : Nat}
+    (hy : y < hp.size) (hrun : (run h (setPath path x y) hp).1 = some (some x')) :
+    Node.setAt path (absNode hp x) (absNode hp y)
+        = some (absNode (run h (setPath path x y) hp).2.1 x')
+      ∧ ∀ z, z < hp.size → (run h (setPath path x y) hp).2.1[z]? = hp[z]? := by
+  obtain ⟨sp, _⟩ := run_setPath h path x y hp x' hrun
+  obtain ⟨pe, _, _, habs⟩ := spine_abs sp hw hy
+  exact ⟨habs, pe.2⟩
+
+/-- non-vacuity: in the fully hashed example heap replace the right child of node 3 (= the left
+    child of node 4, path [left, right] from 4) by the hashed pair 2: two new pairs 5, 6 -/
+example : (run exHash (setPath [false, true] 4 2) exHeapAll).1 = some (some 6)
+    ∧ (run exHash (Prog.root1 6) (run exHash (setPath [false, true] 4 2) exHeapAll).2.1).2.2.calls = 2 := by
+  decide
+
+example : (run exHash (Prog.root1 6) (run exHash (setPath [false, true] 4 2) exHeapAll).2.1).2.2.calls
+    ≤ [false, true].length := by
+  refine (C07_path exHash (wfB_sound (by decide)) (x := 4) (y := 2) (x' := 6) ?_ ?_ (by decide)
+    (by decide)).2
+  · intro y m l r _ hy; exact allMemoB_sound (by decide : allMemoB exHeapAll = true) y m l r hy
+  · intro y m l r _ hy; exact allMemoB_sound (by decide : allMemoB exHeapAll = true) y m l r hy
+
+/-- "Already hashed" is what a hash-tree-root request establishes: in a heap built by poke-free
+    clients from unhashed nodes (`MemoClosed`: a set memo implies the children answer from their memos
+    — preserved by every poke-free client, `run_memoClosed`), after `MerkleRoot` at `x` every pair
+    reachable from `x` has its memo set. -/
+theorem C07_hashed_fully (h : HashFn) (hz : NoZeroOut h) {hp : Heap} (hw : WF hp) (hc : MemoClosed hp)
+    {x : Nat} (hx : x < hp.size) :
+    FullyMemo (run h (Prog.root1 x) hp).2.1 x ∧ MemoClosed (run h (Prog.root1 x) hp).2.1 := by
+  rw [run_root1 h hx]
+  have hc' := rootH_memoClosed h hz hw hc (Nat.lt_succ_self x)
+  exact ⟨fullyMemo_of_top hc' (rootH_topMemo_after h hz hw (Nat.lt_succ_self x) hx), hc'⟩
+
+example : FullyMemo (run exHash (Prog.root1 4) exHeap).2.1 4 :=
+  (C07_hashed_fully exHash exHash_noZero (wfB_sound (by decide)) (memoClosedB_sound (by decide))
+    (by decide)).1
+
+/-- End to end: a client `p` does arbitrary poke-free work in which `x` and `y` get hashed at some
+    point (afterwards both answer from their memo); then one mutation replaces the node at `path`
+    below `x` by `y`; recomputing the root costs at most one hash call per level of the path. -/
+theorem C07_incremental (h : HashFn) (hz : NoZeroOut h) {p : Prog α} (hnp : NoPoke p) {hp : Heap}
+    (hw : WF hp) (hc : MemoClosed hp) {path : List Bool} {x y x' : Nat}
+    (htx : TopMemo (run h p hp).2.1 x) (hty : TopMemo (run h p hp).2.1 y)
+    (hrun : (run h (setPath path x y) (run h p hp).2.1).1 = some (some x')) :
+    (run h (Prog.root1 x') (run h (setPath path x y) (run h p hp).2.1).2.1).2.2.calls ≤ path.length := by
+  have hw1 := (run_frame h hnp hp hw).1
+  have hc1 := run_memoClosed h hz hnp hp hw hc
+  exact (C07_path h hw1 (fullyMemo_of_top hc1 htx) (fullyMemo_of_top hc1 hty) (topMemo_lt hty) hrun).2
+
+example : (run exHash (Prog.root1 6) (run exHash (setPath [false, true] 4 2)
+    (run exHash (Prog.root1 4) exHeap).2.1).2.1).2.2.calls ≤ 2 :=
+  C07_incremental exHash exHash_noZero (p := Prog.root1 4) (.root _ _ (fun v => .ret v))
+    (wfB_sound (by decide)) (memoClosedB_sound (by decide)) (path := [false, true]) (x := 4) (y := 2)
+    (x' := 6) (topMemoB_sound (by decide)) (topMemoB_sound (by decide)) (by decide)
+
+/-- `NoZeroOut` is necessary: with a hash that returns the zero root the memo never becomes
+    "set" and the second request hashes again. -/
+theorem C07_zero_hash_counterexample :
+    ¬ (∀ (h : HashFn) (hp : Heap) (x : Nat), WF hp → x < hp.size →
+        (run h (Prog.root1 x) (run h (Prog.root1 x) hp).2.1).2.2.calls = 0) := by
+  intro hall
+  have := hall zeroHash exHeap 2 (wfB_sound (by decide)) (by decide)
+  revert this
+  decide
+
 end ZtypV.Props.C07
